@@ -121,7 +121,13 @@ def run(ctx):
              "f(((a, b),))", "(a, b,)", "((a, b,),)",
              # literal operands of prefix operators bind like any other operand
              "-2**2", "-2**a", "a - -2**2", "-1.5**a", "b**-2**2", "~2**a",
-             "-2*a", "-2[a]", "+3**a", "not 1 == a"]
+             "-2*a", "-2[a]", "+3**a", "not 1 == a",
+             # a trailing comma closes a list before ')' and before ']'
+             "o[a,]", "o[a, b,]", "o[a,][b]", "f(a,)", "f(a, b,)", "(a,)",
+             "o[(a,)]", "o[a, (b,)]",
+             # names that start with a keyword or a named constant
+             "Trueish + 1", "Falsey * a", "a.Truex", "f(Truex=1)", "android",
+             "iffy if elsewhere else order", "nothing and not_"]
     for s in extra:
         compare(s, ("extra",))
     ctx.extra["skeletons_quick"] = n + len(extra)
@@ -255,6 +261,29 @@ def _check_lexer(ctx, ptab, parser):
         ctx.ob(f"T/lexer/literal:{s}", got == want, loc,
                f"'{s}' -> {got}" if got == want else
                f"'{s}' lexes to {got}, expected {want} (rule order in lex_table)")
+    # every word token (keyword or named constant) ends at a word boundary: a
+    # name that merely starts with the word is one identifier
+    import re as _re
+    n_words = 0
+    for tag, rule in ptab.lex:
+        if rule[0] != "re":
+            continue
+        m_ = _re.fullmatch(r"([A-Za-z_]+)(\\b)?", rule[1])
+        if not m_:
+            continue
+        word = m_.group(1)
+        n_words += 1
+        for name in (word + "ish", word + "_1", word + "x"):
+            try:
+                got = [t for t, _ in lexer.lex(name)]
+            except ModelParseError as e:
+                got = ["error:" + str(e)]
+            ctx.ob(f"T/lexer/word-boundary:{word}", got == ["identifier"], loc,
+                   f"'{name}' is one identifier" if got == ["identifier"] else
+                   f"'{name}' lexes to {got}: the rule for '{word}' does not end "
+                   "at a word boundary, so names that start with it cannot be "
+                   f"read (parse('{name}') fails with left-over input)")
+    ctx.floor("word tokens in the lexer table", n_words, 7)
 
 
 def _check_whole_input(ctx, model):
